@@ -3,6 +3,7 @@ CONSTANTS
   Replicas = {1, 2, 3}
   Clients = {1, 2}
   MaxLog = 3
+  MaxReads = 2
   Mode = "fixed"
 INVARIANTS RevisionIsPosition ResultsAgree LinearizableSeesAcked ReadsSeePrefix
 CONSTRAINT Bound
